@@ -93,6 +93,61 @@ def skeleton_hash(fn, order=None) -> str:
     return hashlib.sha256(ast.dump(clone, annotate_fields=False, include_attributes=False).encode()).hexdigest()[:24]
 
 
+_COMPOUND_HEADERS = {
+    ast.If: lambda n: [n.test],
+    ast.While: lambda n: [n.test],
+    ast.For: lambda n: [n.target, n.iter],
+    ast.AsyncFor: lambda n: [n.target, n.iter],
+    ast.With: lambda n: [x for it in n.items for x in (it.context_expr, it.optional_vars) if x is not None],
+    ast.AsyncWith: lambda n: [x for it in n.items for x in (it.context_expr, it.optional_vars) if x is not None],
+    ast.Try: lambda n: [],
+    ast.ExceptHandler: lambda n: [n.type] if n.type is not None else [],
+    ast.Match: lambda n: [n.subject],
+    ast.FunctionDef: lambda n: list(n.args.defaults) + [d for d in n.args.kw_defaults if d is not None],
+    ast.AsyncFunctionDef: lambda n: list(n.args.defaults) + [d for d in n.args.kw_defaults if d is not None],
+    ast.ClassDef: lambda n: list(n.bases),
+}
+
+
+def statement_units(fn, names: set[str]):
+    """Per statement of ``fn`` (compound statements contribute their header only): (hash with locals abstracted to
+    their first-occurrence index inside the statement, ordered list of the locals it mentions)."""
+    units = []
+    todo = list(fn.body)
+    flat = []
+    while todo:
+        st = todo.pop(0)
+        flat.append(st)
+        for field in ("body", "orelse", "finalbody", "handlers", "cases"):
+            sub = getattr(st, field, None)
+            if isinstance(sub, list):
+                todo.extend(x for x in sub if isinstance(x, (ast.stmt, ast.ExceptHandler, ast.match_case)))
+        if isinstance(st, ast.match_case):
+            todo.extend(st.body)
+    flat.sort(key=lambda n: (getattr(n, "lineno", 0), getattr(n, "col_offset", 0)))
+    for st in flat:
+        if isinstance(st, ast.match_case):
+            continue
+        hdr = _COMPOUND_HEADERS.get(type(st))
+        parts = hdr(st) if hdr is not None else [st]
+        if hdr is None and isinstance(st, ast.Expr) and isinstance(st.value, ast.Constant) and isinstance(st.value.value, str):
+            continue  # docstring / bare string
+        order = []
+        dumps = [type(st).__name__]
+        for part in parts:
+            import copy
+
+            clone = copy.deepcopy(part)
+            for n in ast.walk(clone):
+                if isinstance(n, ast.Name) and n.id in names:
+                    if n.id not in order:
+                        order.append(n.id)
+                    n.id = f"§{order.index(n.id)}"
+            dumps.append(ast.dump(clone, annotate_fields=False, include_attributes=False))
+        units.append((hashlib.sha256("|".join(dumps).encode()).hexdigest()[:16], order))
+    return units
+
+
 def top_level_functions(tree):
     for n in tree.body:
         if isinstance(n, (ast.FunctionDef, ast.AsyncFunctionDef)):
@@ -107,10 +162,12 @@ def build_reference(repo: str) -> dict:
     out = {}
     for p in sorted((pathlib.Path(repo) / "stepup" / "core").glob("*.py")):
         tree = ast.parse(p.read_text())
+        inline_return_temps(tree)
         for q, fn in top_level_functions(tree):
             order = renamable_names(fn)
             if order:
-                out[f"{p.stem}.{q}"] = {"skeleton": skeleton_hash(fn, order), "locals": order}
+                out[f"{p.stem}.{q}"] = {"skeleton": skeleton_hash(fn, order), "locals": order,
+                                        "stmts": [[h, names] for h, names in statement_units(fn, set(order))]}
     return out
 
 
@@ -124,8 +181,95 @@ def load_reference() -> dict:
     return _REF_CACHE
 
 
+def _align_statements(fn, order, r) -> dict:
+    """The function was edited: align its statements with the reference's (difflib on the abstracted statement
+    hashes) and let every aligned pair vote for a renaming of its locals.  Only an injective renaming that does
+    not capture another name of the function is returned."""
+    import difflib
+
+    ref_units = r.get("stmts")
+    if not ref_units:
+        return {}
+    mine = statement_units(fn, set(order))
+    sm = difflib.SequenceMatcher(a=[h for h, _ in mine], b=[h for h, _ in ref_units], autojunk=False)
+    votes = {}
+    for blk in sm.get_matching_blocks():
+        for k in range(blk.size):
+            na, nb = mine[blk.a + k][1], ref_units[blk.b + k][1]
+            if len(na) != len(nb):
+                continue
+            for a, b in zip(na, nb):
+                votes.setdefault(a, {}).setdefault(b, 0)
+                votes[a][b] += 1
+    choice = {}
+    for a, vs in votes.items():
+        b, n = max(vs.items(), key=lambda kv: (kv[1], kv[0]))
+        # ambiguous vote: leave the name alone
+        if sum(1 for v in vs.values() if v == n) == 1:
+            choice[a] = (b, n)
+    # injective: two names voting for the same reference name -> the better supported one wins
+    by_target = {}
+    for a, (b, n) in choice.items():
+        if b not in by_target or by_target[b][1] < n:
+            by_target[b] = (a, n)
+    mapping = {a: b for b, (a, n) in by_target.items() if a != b}
+    # no capture: the target must not be a name the function uses for something else
+    used = {n.id for n in ast.walk(fn) if isinstance(n, ast.Name)} | {a.arg for n in ast.walk(fn) if isinstance(n, ast.arguments) for a in n.posonlyargs + n.args + n.kwonlyargs}
+    safe = {}
+    for a, b in mapping.items():
+        if b in used and b not in mapping:
+            continue
+        safe[a] = b
+    # a swap chain must stay closed (a->b only when b itself is renamed away or unused)
+    changed = True
+    while changed:
+        changed = False
+        for a, b in list(safe.items()):
+            if b in used and b not in safe:
+                del safe[a]
+                changed = True
+    return safe
+
+
+def inline_return_temps(tree: ast.Module) -> int:
+    """`t = E; return t` (t a local that no nested scope can see) is folded back to `return E`.
+
+    The repository never writes this form (its linter forbids it), so on the reference tree this is the identity;
+    it undoes the usual first step of a refactoring that wants to look at a result before returning it.
+    """
+    n = 0
+    for _, fn in top_level_functions(tree):
+        # names visible to nested scopes (closures) or declared global/nonlocal are left alone
+        escaping = set()
+        for x in ast.walk(fn):
+            if x is not fn and isinstance(x, (ast.FunctionDef, ast.AsyncFunctionDef, ast.Lambda)):
+                escaping |= {y.id for y in ast.walk(x) if isinstance(y, ast.Name)}
+            elif isinstance(x, (ast.Global, ast.Nonlocal)):
+                escaping |= set(x.names)
+        params = set()
+        for x in ast.walk(fn):
+            if isinstance(x, ast.arguments):
+                params |= {a.arg for a in x.posonlyargs + x.args + x.kwonlyargs}
+        for node in ast.walk(fn):
+            for field in ("body", "orelse", "finalbody"):
+                b = getattr(node, field, None)
+                if not isinstance(b, list):
+                    continue
+                k = 0
+                while k + 1 < len(b):
+                    a, r = b[k], b[k + 1]
+                    if (isinstance(a, ast.Assign) and len(a.targets) == 1 and isinstance(a.targets[0], ast.Name) and isinstance(r, ast.Return)
+                            and isinstance(r.value, ast.Name) and r.value.id == a.targets[0].id and a.targets[0].id not in params
+                            and a.targets[0].id not in escaping):
+                        b[k:k + 2] = [ast.copy_location(ast.Return(value=a.value), a)]
+                        n += 1
+                    k += 1
+    return n
+
+
 def canonicalise_module(modname: str, tree: ast.Module) -> int:
     """Rename locals of alpha-equivalent functions to the reference names. Returns #functions renamed."""
+    inline_return_temps(tree)
     ref = load_reference()
     n = 0
     for q, fn in top_level_functions(tree):
@@ -133,11 +277,14 @@ def canonicalise_module(modname: str, tree: ast.Module) -> int:
         if r is None:
             continue
         order = renamable_names(fn)
-        if order == r["locals"] or len(order) != len(r["locals"]):
+        if order == r["locals"]:
             continue
-        if skeleton_hash(fn, order) != r["skeleton"]:
+        if len(order) == len(r["locals"]) and skeleton_hash(fn, order) == r["skeleton"]:
+            mapping = {a: b for a, b in zip(order, r["locals"]) if a != b}
+        else:
+            mapping = _align_statements(fn, order, r)
+        if not mapping:
             continue
-        mapping = {a: b for a, b in zip(order, r["locals"]) if a != b}
         # two-step rename to avoid clashes between old and new names
         tmp = {a: f"__canon_{i}__" for i, a in enumerate(mapping)}
         _Renamer(tmp).visit(fn)
